@@ -82,7 +82,7 @@ Lemma paging_concat_state s :
 Proof.
   intros Hi Hf Hne flt from to chunk limit fuel Hchunk Hfuel.
   apply pages_exact; auto.
-  - destruct Hi as [_ [w [nx [Hr _]]]]. eauto.
+  - destruct Hi as [_ [_ [w [nx [Hr _]]]]]. eauto.
   - intros n Hn.
     assert (n < lenN (chain s)).
     { destruct (chain s); [contradiction |]. unfold lenN in *. cbn [length] in *. lia. }
